@@ -168,6 +168,8 @@ class World:
         if v == 1:
             # D consumes h.txt, which nothing declares, and builds k.txt
             wf.define_step(plan, "D", inp_paths=["h.txt"], out_paths=["k.txt"])
+            # S announces its input k.txt and its output h.txt only when it runs: h -> D -> k -> S -> h would be a cycle
+            wf.define_step(plan, "S")
             return
         if v == 2:
             # E would close the cycle h -> D -> k -> E -> h with D (also when D is detached at that moment)
@@ -195,7 +197,14 @@ class World:
 
     def script_for(self, label):
         """The declarations a step makes when it runs (a plan-like step), or None."""
+        if label == "S":
+            return self.s_script
         return self.plan_script if label == "./plan.py" else None
+
+    def s_script(self, step):
+        una, unf, _ = self.wf.amend_step(step, inp_paths=["k.txt"], out_paths=["h.txt"],
+                                         ran_concurrently=lambda a, b: False)
+        return "defer" if (una or unf) else None
 
     # ----- operations
 
@@ -265,6 +274,7 @@ class World:
             await self.tx(step.reset_for_rerun)
             self.dirty.discard(step.label)
             ok = name == "run"
+            defer = False
             script = self.script_for(step.label)
             if script is not None:
                 if step.label == "./plan.py":
@@ -272,7 +282,8 @@ class World:
                 # each RPC request of the script is a transaction of its own; a rejected one fails the step
                 try:
                     async with self.db:
-                        script(step)
+                        if script(step) == "defer":
+                            ok, defer = False, True
                 except m["exceptions"].GraphError:
                     ok = False
                 except (m["exceptions"].ConsistencyError, AssertionError) as e:
@@ -289,7 +300,7 @@ class World:
                         outs[f.label] = m["hash"].FileHash.unknown()
                 wf.update_file_hashes(outs, cause=Cause.SUCCEEDED if ok else Cause.FAILED)
                 new_hash = m["hash"].StepHash(b"i" * 32, None, b"o" * 32, None) if ok else None
-                step.mark_completed(new_hash, False)
+                step.mark_completed(new_hash, defer)
 
             await self.tx(complete)
         elif name == "edit":
